@@ -41,6 +41,8 @@ Proof. vm_compute. repeat split; try congruence; try lia; repeat constructor. Qe
 
 Lemma ex_algebra_inhabited : cmat 1 1 [[zero_poly]] /\ cvec 1 [zero_poly] /\ cpoly zero_poly.
 Proof.
-  assert (V : cvec 1 [zero_poly]) by (split; [reflexivity | repeat constructor; apply cpoly_zero]).
-  repeat split; auto; try reflexivity; try apply cpoly_zero; repeat constructor; try apply cpoly_zero; apply V.
+  assert (V : cvec 1 [zero_poly]).
+  { split; [reflexivity|]. constructor; [apply cpoly_zero | constructor]. }
+  split; [|split; [exact V | apply cpoly_zero]].
+  split; [reflexivity|]. constructor; [exact V | constructor].
 Qed.
